@@ -93,7 +93,36 @@ int main(int argc, char **argv) {
         }
         alarm(10);
         fprintf(out, "{\"id\":%ld,\"a\":\"Call\",\"op\":\"%s\"", sid, op);
-        if(!strcmp(op, "int2c")) {
+        if(!strcmp(op, "script")) {
+            /* conversions into ONE object, one after the other: script <id> <int|real> long:5 umax:7 ... | d:<hex> ... */
+            char *kind = strtok_r(NULL, " ", &save), *tok; int first = 1, isreal = kind && !strcmp(kind, "real");
+            INTEGER_t ist; REAL_t rst; memset(&ist, 0, sizeof ist); memset(&rst, 0, sizeof rst);
+            fputs(",\"steps\":[", out);
+            while((tok = strtok_r(NULL, " ", &save))) {
+                char *arg = strchr(tok, ':'); int ret = 0, bret = 0;
+                if(!arg) break;
+                *arg++ = 0;
+                fprintf(out, "%s{", first ? "" : ","); first = 0;
+                if(isreal) {
+                    uint64_t bits = strtoull(arg, 0, 16), bb; double d, back = 0;
+                    memcpy(&d, &bits, 8);
+                    ret = asn_double2REAL(&rst, d);
+                    bret = ret ? -1 : asn_REAL2double(&rst, &back);
+                    if(back != back) bb = 0x7ff8000000000000ULL; else memcpy(&bb, &back, 8);
+                    fprintf(out, "\"op\":\"d2r\",\"back\":\"%016llx\",\"ret\":%d,\"back_ret\":%d,\"octets\":", (unsigned long long)bb, ret, bret); put_hex(rst.buf, rst.buf ? rst.size : 0);
+                } else {
+                    fputs("\"op\":\"int2c\"", out);
+                    if(!strcmp(tok, "long")) { long v = strtol(arg, 0, 10), b = 0; ret = asn_long2INTEGER(&ist, v); bret = asn_INTEGER2long(&ist, &b); fprintf(out, ",\"back\":\"%ld\"", b); }
+                    else if(!strcmp(tok, "ulong")) { unsigned long v = strtoul(arg, 0, 10), b = 0; ret = asn_ulong2INTEGER(&ist, v); bret = asn_INTEGER2ulong(&ist, &b); fprintf(out, ",\"back\":\"%lu\"", b); }
+                    else if(!strcmp(tok, "imax")) { intmax_t v = strtoimax(arg, 0, 10), b = 0; ret = asn_imax2INTEGER(&ist, v); bret = asn_INTEGER2imax(&ist, &b); fprintf(out, ",\"back\":\"%" PRIdMAX "\"", b); }
+                    else { uintmax_t v = strtoumax(arg, 0, 10), b = 0; ret = asn_umax2INTEGER(&ist, v); bret = asn_INTEGER2umax(&ist, &b); fprintf(out, ",\"back\":\"%" PRIuMAX "\"", b); }
+                    fprintf(out, ",\"ret\":%d,\"back_ret\":%d,\"octets\":", ret, bret); put_hex(ist.buf, ist.buf ? ist.size : 0);
+                }
+                fputs("}", out);
+            }
+            fputs("]", out);
+            free(ist.buf); free(rst.buf);
+        } else if(!strcmp(op, "int2c")) {
             char *ty = strtok_r(NULL, " ", &save), *dec = strtok_r(NULL, " ", &save);
             INTEGER_t st; int ret, bret; memset(&st, 0, sizeof st);
             if(!strcmp(ty, "long")) { long v = strtol(dec, 0, 10), b = 0; ret = asn_long2INTEGER(&st, v); bret = asn_INTEGER2long(&st, &b); fprintf(out, ",\"back\":\"%ld\"", b); }
